@@ -116,6 +116,11 @@ def nested_cases(rng):
            % (v, init, v, v, v))
     out.append(["NEW", "EVAL " + mk4, "EVAL (setq p1 (funcall mk4 5))", "EVAL (setq p2 (funcall mk4 7))",
                 "EVAL (list (funcall (car p1)) (funcall (car p2)) (car (cdr p1)) (car (cdr p2)))", "DUMP x y"])
+    for shape in ["(defun app2 (%s g) (list %s (funcall g)))", "(defun app2 (%s &optional g) (list %s (funcall g) (funcall g)))", "(defun app2 (%s g) (setq %s 'callee-set) (list %s (funcall g)))"]:
+        d = shape.replace("%s", v)
+        out.append(["NEW", "EVAL " + d, "EVAL (let ((%s 10)) (app2 1 (lambda () %s)))" % (v, v), "EVAL (let ((%s 10)) (app2 1 (lambda () (setq %s (+ %s 1)) %s)))" % (v, v, v, v),
+                    "EVAL (let ((%s 10)) (funcall (lambda (%s g) (list %s (funcall g))) 2 (lambda () %s)))" % (v, v, v, v),
+                    "EVAL (setq keep (let ((%s 10)) (app2 3 (lambda () (lambda () %s)))))" % (v, v), "EVAL (funcall (car (cdr keep)))", "DUMP x y"])
     # two DIFFERENT symbols with one print name (an interned one and an uninterned one, as a hygienic macro would make), both locally
     # bound to different values where the lambda is created: each keeps its own value and its own assignments
     for nm in ["x", "factor"]:
